@@ -197,7 +197,7 @@ impl C07 {
                 "acceptance-frequency",
                 0,
                 format!(
-                    "downhill moves of d = {:e} at kT = {:e} (d/kT = {}): accepted {} of {} = {:.5}, Metropolis says exp(-d/kT) = {:.5}; |difference| {:.5} > Hoeffding bound {:.5} (delta 1e-16)",
+                    "downhill moves of d = {:e} at kT = {:e} (d/kT = {}): accepted {} of {} = {:.5}, Metropolis says exp(-d/kT) = {:.5}; |difference| {:.5} > Hoeffding bound {:.5} (delta 1e-18)",
                     d, kt, ratio, acc, tot, got, want, (got - want).abs(), eps
                 ),
             ));
@@ -319,7 +319,7 @@ impl Check for C07 {
     fn assumptions(&self) -> Vec<String> {
         vec![
             "decisions are inferred from the parameter vectors seen by score(); clause violations need every consistent explanation to violate".into(),
-            "frequency clause: two-sided Hoeffding bound with delta = 1e-16 per comparison (< 1e-12 per invocation); trials are selected by criteria that do not depend on the trial's own acceptance draw".into(),
+            "frequency clause: two-sided Hoeffding bound with delta = 1e-18 per comparison (< 1e-12 per invocation); trials are selected by criteria that do not depend on the trial's own acceptance draw".into(),
             "NaN scores are not injected: the property does not say what must happen to them".into(),
         ]
     }
@@ -629,7 +629,7 @@ impl Check for C18 {
     }
     fn assumptions(&self) -> Vec<String> {
         vec![
-            "temperature is not observable directly: it is inferred per inner loop from acceptance frequencies of exact-d downhill trials (Hoeffding intervals, delta 1e-16 each, < 1e-12 per invocation)".into(),
+            "temperature is not observable directly: it is inferred per inner loop from acceptance frequencies of exact-d downhill trials (Hoeffding intervals, delta 1e-18 each, < 1e-12 per invocation)".into(),
             "proposal p belongs to inner loop (p-1) / min(inner_steps, steps) + 1; leading bookkeeping evaluations are recognised as observations identical to the input".into(),
             "a finishing temperature admits any single factor between (finish/start)^(1/L) and (finish/start)^(1/(L-1)) ('within one cooling step'); with neither ratio nor finish only constancy and a single factor are required".into(),
         ]
